@@ -307,7 +307,7 @@ func (r *replayer) runCase(fam string, c *caseRec, docs []interface{}, docsTagge
 			r.calls++
 			allowed := c.Allowed[ai]
 			canary := false
-			if r.canEvery > 0 && r.calls%r.canEvery == 0 && o.Kind == "ok" {
+			if r.canEvery > 0 && r.calls%r.canEvery == 0 && o.Kind == "ok" && !strings.Contains(mustJSON(allowed), "unspec") {
 				// canary: corrupt the observation; the comparator must notice
 				o = Obs{Kind: "ok", Value: "☃canary"}
 				canary = true
